@@ -188,7 +188,11 @@ def check_case(case, enforce_all=False):
                 outs = None
                 try:
                     outs = _build(p, case["form"], tick, with_solver)
-                    _get(outs, target, how)
+                    if how:
+                        _get(outs, target, how)
+                    # exactly what the clean run did: elements of the implicit block are lazy LinearOperators whose
+                    # products are only carried out when they are applied, so the target is made dense here as well
+                    _norm(_get(outs, target))
                     raised = None
                 except BaseException as exc:  # noqa: BLE001
                     raised = exc
